@@ -230,7 +230,6 @@ def run(tier, replay=None):
     cov["excluded_inputs"] = ["empty sample index lists (Eigen minCoeff/maxCoeff on an empty vector in dataset_t::check)",
                               "3x3 structured inputs of the gradient generator (1x1 gradient features: described as scalar, "
                               "generated as structured -- no select overload serves them; defect candidate, see notes/C08.md)",
-                              "pairwise generators built from two different feature lists (index swap in make_pairwise; see notes/C08.md)",
                               "dataset_t::shuffled on a feature that is not currently shuffled (assert only; null map)"]
     r.assumptions = ["assertions are compiled out (NDEBUG) as in the library build",
                      "ASan/UBSan detect out-of-bounds touches of the explored calls",
